@@ -37,7 +37,8 @@ func (in *Interp) argStr(v Value) string {
 func (in *Interp) argInt(v Value) int64 {
 	t := v.(*sym.Term)
 	if !t.IsConst() {
-		panic(unsupported{"expected concrete integer argument"})
+		// case split over every feasible value
+		return int64(in.conInt(t, "integer argument of a native call"))
 	}
 	return t.I.Int64()
 }
@@ -711,7 +712,7 @@ func (in *Interp) unwrapErr(e IfaceV) IfaceV {
 	if e.T == nil {
 		return IfaceV{}
 	}
-	m := in.Prog.LookupMethod(e.T, nil, "Unwrap")
+	m := in.lookupMethod(e.T, nil, "Unwrap")
 	if m == nil {
 		// pkg/errors style Cause
 		return IfaceV{}
@@ -738,7 +739,7 @@ func (in *Interp) errorsIs(err, target IfaceV) bool {
 				return true
 			}
 		}
-		if m := in.Prog.LookupMethod(err.T, nil, "Is"); m != nil {
+		if m := in.lookupMethod(err.T, nil, "Is"); m != nil {
 			r, ip := in.callFn(m, []Value{err.V, target}, nil)
 			if ip == nil {
 				if t, ok := r.(*sym.Term); ok && in.branch(t) {
